@@ -359,6 +359,8 @@ def run(tier):
             for rhs_self in (True, False):
                 for req in (["{}"], ["{}Assign"], ["{}", "{}Assign"]):
                     configs.append((("bin", bl, br), rhs_self, req))
+                if rhs_self:
+                    configs.append((("bin", bl, br), rhs_self, ["{}Assign", "{}"]))  # the order in which the two are requested does not matter
     for br in (False, True):
         for rhs_self in (True, False):
             configs.append((("assign", br), rhs_self, ["{}"]))
